@@ -583,6 +583,18 @@ func (t *tokenizer) readOperator() (string, error) {
 	}
 
 	for isOperatorChar(c) {
+		if c == '/' {
+			// A '//' or '/*' starts a comment, also in the middle of a run of operator
+			// characters (the skipping code treats it that way as well).
+			cs, err := t.peekN(2)
+			if err != nil && err != io.EOF {
+				return "", err
+			}
+			if len(cs) == 2 && (cs[1] == '/' || cs[1] == '*') {
+				break
+			}
+		}
+
 		ret.WriteByte(byte(c))
 		_, err = t.read()
 		if err != nil {
